@@ -43,10 +43,22 @@ def showResp : SResp → String
 def showCanon (sp : List Canon.Cps × Bool) : String :=
   showCpsNat (Canon.render sp)
 
+/-- One long-lived handler over a document tree that changes between requests: the word `T` followed by
+    `<spec> <metas>` replaces the tree, every other word is a raw request path (`!` = refused line)
+    answered on the tree as it is at that moment.  The model keeps no state between requests: each
+    answer is `Fs.handle` on the current tree. -/
+def seqGo (one : OS → String → String) : Option OS → List String → List String
+  | _, [] => []
+  | _, "T" :: ts :: ms :: rest => seqGo one (some (treeOS (parseTree ts) (parseMetas ms))) rest
+  | some os, raw :: rest => one os raw :: seqGo one (some os) rest
+  | none, _ :: rest => "no-tree" :: seqGo one none rest
+
 /-- `tree <spec> <path>` : realpath port and kernel walk;
     `canon <raw>` : `canonical_path`;
     `static <spec> <metas> <listing 0|1> <indices path> <maxSize> <raw>…` : the static handler on the
-    document root `root` (first component) of the tree, one result per raw request path (`!` = refused line) -/
+    document root `root` (first component) of the tree, one result per raw request path (`!` = refused line);
+    `seq <listing 0|1> <indices path> <maxSize> (T <spec> <metas> | <raw>)…` : the same handler over a tree that
+    is replaced between requests (see `seqGo`) -/
 def handle : List String → Option String
   | ["tree", ts, p] =>
     let t := parseTree ts
@@ -69,8 +81,17 @@ def handle : List String → Option String
         let sp := canonSegs (cpsNat raw)
         showResp (Fs.handle os cfg sp.1 sp.2)
     some ("ok " ++ " | ".intercalate (raws.map one))
+  | "seq" :: listing :: idx :: mx :: rest =>
+    let cfg : SCfg := { root := [toName [114, 111, 111, 116]], indices := comps idx, listingOn := listing == "1", maxSize := mx.toNat! }
+    let one (os : OS) (raw : String) : String :=
+      if raw == "!" then "reject"
+      else
+        let sp := canonSegs (cpsNat raw)
+        showResp (Fs.handle os cfg sp.1 sp.2)
+    some ("ok " ++ " | ".intercalate (seqGo one none rest))
   | "tree" :: _ => some "bad-op"
   | "canon" :: _ => some "bad-op"
   | "static" :: _ => some "bad-op"
+  | "seq" :: _ => some "bad-op"
   | _ => none
 end NauyacaVerif.Drv.FsD
